@@ -61,7 +61,6 @@ package main
 //@   ensures [C31.read_returns_prefix_and_rest] len(result0) <= len(rs) && base(result0) == base(rs) && off(result0) == off(rs) && base(result1) == base(old(in)) && off(result1) + len(result1) == off(old(in)) + len(old(in))
 
 //@ func lfsDecodeBatchRecords
-//@   requires batch != nil
 //@   ghost grest int = 0
 //@   ghost gdecoded int = 0
 //@   at lfsReadRawRecordsInto#1 after set grest = len(ret1)
@@ -70,3 +69,68 @@ package main
 //@   ensures [C31.decode_leaves_no_record_bytes] err == nil ==> grest == 0
 //@   ensures [C31.decode_error_no_records] err != nil ==> len(result0) == 0
 //@   ensures [C31.decode_codec_is_batch_codec] int(result1) == int(old(batch.Attributes)) & 7
+
+// ---- the rewrite itself ----
+// Helpers cut out of the exploration (nothing assumed about their results, everything they may write forgotten):
+//@ func (m *lfsModule) resolveChecksumAlg
+//@   modular
+//@   nullable m
+//@ func (m *lfsModule) buildObjectKey
+//@   modular
+//@   nullable m
+//@ func (m *lfsModule) trackOrphans
+//@   modular
+//@   nullable m
+//@ func (u *s3Uploader) Upload
+//@   modular
+//@   nullable u
+//@ func (u *s3Uploader) DeleteObject
+//@   modular
+//@   nullable u
+//@ func lfsHeaderValue
+//@   modular
+//@ func lfsHeadersToMap
+//@   modular
+//@ func lfsCompressRecords
+//@   ensures [C31.compress_reports_a_kafka_codec] 0 <= int(result1) && int(result1) <= 4
+//@   ensures [C31.uncompressed_batch_stays_uncompressed] int(codec) == 0 ==> int(result1) == 0 && sameSlice(result0, raw) && err == nil
+//@ func lfsEncodeRecords
+//@   modular
+
+// rewriteProduceRecords, per record and per batch (one arbitrary iteration of each loop):
+//  - a record is uploaded / gets a new value only when lfsFindHeaderValue found the LFS_BLOB header on it; what is
+//    uploaded is exactly that record's value, under the key the envelope names; the envelope carries that key, the
+//    module's bucket, the value's length and the digest the uploader returned; the header list is replaced by
+//    lfsDropHeader(original headers, "LFS_BLOB");
+//  - a batch is re-framed only if one of its records changed; then: records re-encoded from the record list, record
+//    count = len(records), codec bits = the codec the compressor reports (other attribute bits kept), Length =
+//    len(first encoding) - 12, CRC = CRC-32C over bytes [21:] of the encoding made after Length was set, Raw = the
+//    encoding made after the CRC was set; the partition's bytes become the join of the batches.
+//@ func (m *lfsModule) rewriteProduceRecords
+//@   requires m.s3Uploader != nil && m.metrics != nil
+//@   ghost gfound bool = false
+//@   ghost gkey string = ""
+//@   ghost gsha string = ""
+//@   ghost genc1 []byte = nil
+//@   ghost genc2 []byte = nil
+//@   ghost gcrc uint32 = 0
+//@   ghost gattr int16 = 0
+//@   ghost gcodec int8 = 0
+//@   at lfsFindHeaderValue#1 after set gfound = ret1
+//@   at buildObjectKey#1 after set gkey = ret0
+//@   at Upload#1 before assert [C31.only_flagged_records_are_uploaded] gfound && arg1 == gkey && sameSlice(arg2, rec.Value) && sameSlice(arg2, payload)
+//@   at Upload#1 after set gsha = ret0
+//@   at EncodeEnvelope#1 before assert [C31.envelope_names_the_uploaded_object] gfound && arg0.Version == 1 && arg0.Key == gkey && arg0.Bucket == m.s3Bucket && arg0.Size == int64(len(payload)) && arg0.SHA256 == gsha
+//@   at lfsDropHeader#1 before assert [C31.flagged_record_loses_only_flag_header] gfound && sameSlice(arg0, headers) && arg1 == "LFS_BLOB" && sameSlice(rec.Value, encoded)
+//@   at lfsEncodeRecords#1 before assert [C31.batch_reencoded_only_if_a_record_changed] recordChanged && sameSlice(arg0, records)
+//@   at lfsCompressRecords#1 before assert [C31.recompressed_with_batch_codec] arg0 == codec && sameSlice(arg1, newRecords)
+//@   at lfsCompressRecords#1 before set gattr = batch.Attributes
+//@   at lfsCompressRecords#1 after set gcodec = ret1
+//@   at AppendTo#1 before assert [C31.batch_header_patched] sameSlice(batch.Records, compressedRecords) && batch.NumRecords == int32(len(records)) && batch.Length == 0 && batch.CRC == 0
+//@   at AppendTo#1 after set genc1 = ret0
+//@   at AppendTo#2 before assert [C31.batch_length_is_encoding_minus_12] batch.Length == int32(len(genc1) - 12)
+//@   at AppendTo#2 after set genc2 = ret0
+//@   at Checksum#1 before assert [C31.batch_crc_over_final_length_encoding] len(genc2) >= 21 && sameSlice(arg0, genc2[21 : len(genc2)]) && arg1 == lfsCRC32cTable
+//@   at Checksum#1 after set gcrc = ret0
+//@   at AppendTo#3 before assert [C31.batch_final_encoding_has_length_and_crc] batch.Length == int32(len(genc1) - 12) && batch.CRC == int32(gcrc) && batch.NumRecords == int32(len(records))
+//@   at lfsJoinRecordBatches#1 before assert [C31.partition_bytes_rejoined_only_if_a_batch_changed] batchModified && sameSlice(arg0, batches)
